@@ -12,6 +12,7 @@ From QSX Require Import Store.Matrix Store.L2.
 From QSX Require Import IO.LpWrite IO.LpRead IO.MpsWrite IO.LpRoundtrip IO.LpNames.
 (* one Require line per area may be added below *)
 From QSX Require Import Store.RawLoad.
+From QSX Require Import Store.GuardDefs Gen.Guards.
 
 Extraction Language OCaml.
 Extraction "model.ml"
@@ -35,4 +36,5 @@ Extraction "model.ml"
   write_lp file_bytes read_lp_res split_lines to_nlp write_mps wf_lpb fix_names default_objname
   (* add names below, one line per area *)
   lib_load_raw_c merge_col_c
+  guards guard_accepts role_accepts
   .
